@@ -28,7 +28,7 @@ BOUND = {
     "thorough": "27 types x all 512 subsets x 8 values x 2 alias spellings x 3 contexts (order rotated)",
 }
 # as-built additions to the bound (kept next to BOUND so that the evidence reports them)
-BOUND = {k: v + "; plus: " + '11 columns (noAppErrorString and a constraint_message::fr language column added); 6 further range / image / geopoint parameter spellings' for k, v in BOUND.items()}
+BOUND = {k: v + "; plus: " + 'selects inside a table-list group (row under test first / second; generated helper nodes carry no row logic); 11 columns (noAppErrorString and a constraint_message::fr language column added); 6 further range / image / geopoint parameter spellings' for k, v in BOUND.items()}
 
 NSP = {"jr": O.JR, "odk": O.ODK, "orx": O.ORX}
 
@@ -86,6 +86,11 @@ def blocks(tier):
     for ti in range(len(TYPE_CELLS)):
         for ctx in ("top", "group", "repeat"):
             yield (ti, ctx)
+        if TYPE_CELLS[ti] in ("select_one c", "select_multiple c"):
+            # a table-list group: the rows around the one under test are selects on the same list; the two generated
+            # helper nodes (group label note, list header select) are not survey rows and carry no logic of any row
+            yield (ti, "tablelist")
+            yield (ti, "tablelist-first")
 
 
 def expand(block, tier):
@@ -160,7 +165,12 @@ def build(case):
         mid = [row, {"type": "text", "name": "inner", "label": "I"}, {"type": "end " + ty.split()[1]}]
     elif ty == "background-audio":
         row.pop("label", None)
-    if ctx == "top":
+    if ctx.startswith("tablelist"):
+        other.update(type="select_one c")
+        after.update(type="select_one c")
+        body = [*mid, other, after] if ctx.endswith("first") else [other, *mid, after]
+        rows = [{"type": "begin group", "name": "w", "label": "W", "appearance": "table-list"}, *body, {"type": "end group"}]
+    elif ctx == "top":
         rows = [other, *mid, after]
     else:
         kind = "group" if ctx == "group" else "repeat"
@@ -287,8 +297,17 @@ def check_one(case):
         want_a = {"ref", "event"} | ({qn("odk:quality")} if "param" in case["cols"] else set())
         if len(acts) != 1 or set(acts[0].attrib) != want_a:
             viol.append(("background-audio-action-attributes", f"{[dict(a.attrib) for a in acts]} want keys {sorted(want_a)}"))
-    compare("o", {"type": "int", "relevant": "1=1"}, "before")
+    compare("o", {"type": "string" if case["ctx"].startswith("tablelist") else "int", "relevant": "1=1"}, "before")
     compare("n2", {"type": "string", "constraint": ". != 'z'", "jr:constraintMsg": "cm2"}, "after")
+    # binds of nodes that are no survey row (generated helpers): nothing but their own type / readonly
+    rowpaths = {f"{base}/t", f"{base}/o", f"{base}/n2", f"{base}/t/inner", "/data/w", "/data/meta/instanceID"}
+    for ns_, bs in bm.items():
+        if ns_ in rowpaths:
+            continue
+        for b in bs:
+            extra = {O.local(k) for k in b.attrib} - {"nodeset", "type", "readonly"}
+            if extra or (b.get("readonly") not in (None, "true()")):
+                viol.append((f"generated-node-carries-row-logic:{'+'.join(sorted(extra)) or 'readonly'}", f"{dict(b.attrib)}"))
     if case["ctx"] != "top" and bm.get("/data/w"):
         viol.append(("group-without-logic-has-bind", str([dict(b.attrib) for b in bm["/data/w"]])))
     return {"outcome": "ok", "nt": bool(case["cols"]) and not viol, "viol": viol, "tr": ntr}
